@@ -175,6 +175,50 @@ fn check(c: &Xc) -> CaseResult {
     pass(true, if tampered { "tampered" } else if c.same_id { "honest/same-id" } else { "honest" })
 }
 
+/// The initiator's scalar given directly (exch_step_2a takes it from the caller): rA in {1, 2, 3, N-3, N-2, N-1, 2^255 mod N, ...}
+#[derive(Serialize, Deserialize, Hash, Debug, Clone)]
+pub struct DirectRa {
+    pub ra: Hex,
+    pub klen: usize,
+    pub id_seed: u64,
+}
+
+fn check_direct_ra(c: &DirectRa) -> CaseResult {
+    let pr = r9::params();
+    let n = &pr.n;
+    let ke = BigUint::from(0x0bad_c0de_1234_5678u64);
+    let m = master(&ke);
+    let (ida, idb) = (expand_bytes(c.id_seed, 5), expand_bytes(c.id_seed ^ 0xb0b, 4));
+    let ra = from_be(&c.ra);
+    if ra.bits() == 0 || &ra >= n {
+        return pass(false, "rA-out-of-range-skipped");
+    }
+    let (Some(dea_ref), Some(deb_ref)) = (r9::exch_key(&ke, &ida), r9::exch_key(&ke, &idb)) else { return pass(false, "extraction-undefined") };
+    let key_a = m.lib.extract_exch_key(&ida).ok_or_else(|| Fail { key: "entry=Sm9EncMasterKey::extract_exch_key input=valid outcome=none".into(), detail: "".into() })?;
+    let key_b = m.lib.extract_exch_key(&idb).ok_or_else(|| Fail { key: "entry=Sm9EncMasterKey::extract_exch_key input=valid outcome=none".into(), detail: "".into() })?;
+    let ra_ref = r9::exch_r(&m.ppube, &idb, &ra);
+    let ra_lib = lib_g1(&ra_ref, &BigUint::one());
+    let rb = from_be(&expand_bytes(c.id_seed ^ 0x2b, 32)) % (n - 2u32) + 1u32;
+    let rb2 = from_be(&expand_bytes(c.id_seed ^ 0x2c, 32)) % (n - 2u32) + 1u32;
+    let (res, left) = with_sm9_candidates(vec![to32(&rb), to32(&rb2)], || exch_step_1b(&m.lib, &ida, &idb, &key_b, &ra_lib, c.klen));
+    let (rb_lib, skb) = match res { Ok(Ok(v)) => v, o => return fail("entry=exch_step_1b input=on-curve-R_A outcome=err", format!("{:?}", o.is_ok())) };
+    let rb_used = if left == 1 { rb } else { rb2 };
+    let rb_ref = r9::exch_r(&m.ppube, &ida, &rb_used);
+    ensure!(ref_g1(&rb_lib).ok() == Some(rb_ref.clone()), "entry=exch_step_1b outcome=wrong-R_B", "rB={:x}", rb_used);
+    let skb_ref = r9::exch_responder(&m.g, &deb_ref, &ida, &idb, &rb_used, &ra_ref, &rb_ref, c.klen).ok_or_else(|| Fail { key: "harness: reference responder".into(), detail: "".into() })?;
+    ensure!(skb == skb_ref, "entry=exch_step_1b outcome=wrong-key", "rA={:x}: library SK_B {} ; GM/T 0044.3 {}", ra, hexs::hx(&skb), hexs::hx(&skb_ref));
+    let r2a = outcome(|| exch_step_2a(&m.lib, &ida, &idb, &key_a, crate::refimpl::field::to_limbs(&ra), &ra_lib, &rb_lib, c.klen));
+    let ska = match r2a {
+        Outcome::Ok(v) => v,
+        Outcome::Panic(p) => return fail(format!("entry=exch_step_2a input=rA-edge outcome=panic site={}", panic_site(&p)), format!("rA={:x}: {}", ra, p)),
+        Outcome::Err(e) => return fail("entry=exch_step_2a input=on-curve-R_B outcome=err", format!("rA={:x}: {}", ra, e)),
+    };
+    let ska_ref = r9::exch_initiator(&m.ppube, &m.g, &dea_ref, &ida, &idb, &ra, &ra_ref, &rb_ref, c.klen).ok_or_else(|| Fail { key: "harness: reference initiator".into(), detail: "".into() })?;
+    ensure!(ska == ska_ref, "entry=exch_step_2a outcome=wrong-key", "rA={:x} klen={}: library SK_A {} ; GM/T 0044.3 {}", ra, c.klen, hexs::hx(&ska), hexs::hx(&ska_ref));
+    ensure!(ska == skb, "entry=exch outcome=keys-differ", "rA={:x}: SK_A {} SK_B {}", ra, hexs::hx(&ska), hexs::hx(&skb));
+    pass(true, "direct-rA")
+}
+
 fn rt() -> impl Strategy<Value = Option<RTamper>> {
     prop_oneof![
         4 => Just(None),
@@ -251,6 +295,12 @@ pub fn run(ctx: &Ctx) {
         }
         v
     }, check);
+
+    ctx.listed("initiator_scalar_edges", "rA handed to exch_step_2a directly (the function takes it from the caller): 1, 2, 3, N-3, N-2, N-1 (the largest legal value), 2^255 mod N, 2^64, 2^128+1 — R_A computed by the reference, both keys exact", || {
+        let n = &r9::params().n;
+        let vals: Vec<BigUint> = vec![BigUint::one(), BigUint::from(2u32), BigUint::from(3u32), n - 3u32, n - 2u32, n - 1u32, (BigUint::one() << 255) % n, BigUint::one() << 64, (BigUint::one() << 128) + 1u32];
+        vals.iter().enumerate().map(|(i, v)| DirectRa { ra: gen::hex32(v), klen: 16 + i, id_seed: 0x2e20 + i as u64 }).collect::<Vec<_>>()
+    }, check_direct_ra);
 
     ctx.listed("crafted_zero_key", "klen = 1 and an rB (found by walking rB upwards with the reference) for which the one-byte key KDF(...) is 00 — this happens once in 256 exchanges at klen = 1: (a) the responder is offered the candidates (rB_bad, rB_good): whichever it ends up using, R_B and SK_B must belong together; (b) the initiator receives the R_B of a responder that used rB_bad: it must return the (all-zero) key GM/T 0044.3 defines, not loop", || {
         use rayon::prelude::*;
